@@ -499,6 +499,8 @@ def run(sess):
     c01_slice.run(sess)
     from . import c01_list
     c01_list.run(sess)
+    from . import c01_str
+    c01_str.run(sess)
 
 
 META = {
@@ -599,6 +601,9 @@ def replay_witness(w, rp):
     elif k == 'selection':
         from . import c01_slice
         return c01_slice.replay_witness(w, rp)
+    elif k == 'str_window':
+        from . import c01_str
+        return c01_str.replay_witness(w, rp)
     elif k == 'list_index':
         from . import c01_list
         return c01_list.replay_witness(w, rp)
@@ -705,4 +710,6 @@ def validate(sess, rp):
             ok = g.get('ok') == enc
         if not ok:
             mism.append(f'{what}: encoding says {enc}, native build says {str(g)[:120]}')
-    return n, mism
+    from . import c01_str
+    n2, m2 = c01_str.validate(rp)
+    return n + n2, mism + m2
